@@ -250,6 +250,13 @@ W(cplusplus) { (void)a; UNUSED_B; return __cplusplus; }
 // ---------------------------------------------------------------- compiled table functions
 W_RT(sin_angle_aprox) { UNUSED_B; return sin_angle_aprox(static_cast<int32_t>(a)).v; }
 W_RT(cos_angle_aprox) { UNUSED_B; return cos_angle_aprox(static_cast<int32_t>(a)).v; }
+// the same entry points called with an argument object of a narrower static type than the declared parameter
+#define ANGLE_APROX_T(tag, T) \
+  W_RT(sin_angle_aprox_##tag) { UNUSED_B; T const d{ static_cast<T>(a) }; return sin_angle_aprox(d).v; } \
+  W_RT(cos_angle_aprox_##tag) { UNUSED_B; T const d{ static_cast<T>(a) }; return cos_angle_aprox(d).v; }
+ANGLE_APROX_T(i8, int8_t) ANGLE_APROX_T(i16, int16_t) ANGLE_APROX_T(u8, uint8_t) ANGLE_APROX_T(u16, uint16_t)
+W_RT(sin_angle_tab_u8) { UNUSED_B; uint8_t const i{ static_cast<uint8_t>(a) }; return sin_angle_tab(i).v; }
+W_RT(cos_angle_tab_u8) { UNUSED_B; uint8_t const i{ static_cast<uint8_t>(a) }; return cos_angle_tab(i).v; }
 W_RT(sqrt_aprox) { UNUSED_B; return sqrt_aprox(as_fixed(a)).v; }
 W_RT(hypot_aprox) { return hypot_aprox(as_fixed(a), as_fixed(b)).v; }
 W_RT(atan_index_aprox) { UNUSED_B; return atan_index_aprox(as_fixed(a)).v; }
@@ -415,6 +422,8 @@ extern "C" const w_entry w_entries[] = {
   E(sin) E(cos) E(tan) E(atan) E(atan2) E(asin) E(acos) E(sqrt_constexpr_available) E(cplusplus)
   E(sin_angle_aprox) E(cos_angle_aprox) E(sqrt_aprox) E(hypot_aprox) E(atan_index_aprox) E(atan_aprox)
   E(sin_angle_tab) E(cos_angle_tab) E(tan_tab) E(square_root_tab)
+#define E_ANGLE_APROX_T(tag) E(sin_angle_aprox_##tag) E(cos_angle_aprox_##tag)
+  E_ANGLE_APROX_T(i8) E_ANGLE_APROX_T(i16) E_ANGLE_APROX_T(u8) E_ANGLE_APROX_T(u16) E(sin_angle_tab_u8) E(cos_angle_tab_u8)
   E(udl_int) E(udl_float) E(ostream)
 #define E_SINIT(n) E(sinit_##n) E(snow_##n)
   E_SINIT(sin_angle_aprox) E_SINIT(cos_angle_aprox) E_SINIT(sqrt_aprox) E_SINIT(hypot_aprox) E_SINIT(atan_index_aprox) E_SINIT(sin_angle_tab) E_SINIT(tan_tab) E_SINIT(square_root_tab)
